@@ -180,8 +180,13 @@ fn run_collision(idx: u64, acc: &mut Acc) {
 // ---------------------------------------------------------------------------
 // reference graphs
 
-const NCONS: usize = 9;
-const CONS_NAMES: [&str; NCONS] = ["bare", "arith", "macro-body", "macro-range", "call-arg", "has", "coalesce", "fstring", "ternary"];
+/// constructs 0..9 are the core set (used for 4-node graphs); 9.. are the remaining macro sites
+const NCONS_ALL: usize = 18;
+const NCONS_CORE: usize = 9;
+const CONS_NAMES: [&str; NCONS_ALL] = [
+    "bare", "arith", "macro-body", "macro-range", "call-arg", "has", "coalesce", "fstring", "ternary", "map-over-map-body", "filter-body",
+    "filter-over-map-body", "all-body", "exists-body", "exists_one-body", "reduce-step", "reduce-seed", "map3-body",
+];
 
 fn edge_src(cons: usize, target: &str) -> String {
     match cons {
@@ -193,40 +198,60 @@ fn edge_src(cons: usize, target: &str) -> String {
         5 => format!("has({}) ? 1 : 0", target),
         6 => format!("coalesce({}, 0)", target),
         7 => format!("int(f'{{{}}}')", target),
-        _ => format!("true ? {} : 0", target),
+        8 => format!("true ? {} : 0", target),
+        9 => format!("{{'a': 1}}.map(k, {})[0]", target),
+        // every construct reads its target exactly once (a cycle must not fan out)
+        10 => format!("[5].filter(x, {} > -100)[0]", target),
+        11 => format!("size({{'a': 1}}.filter(k, {} > -100)) == 1u ? 1 : 0", target),
+        12 => format!("[1].all(x, {} > -100) ? 1 : 0", target),
+        13 => format!("[1].exists(x, {} > -100) ? 1 : 0", target),
+        14 => format!("[1].exists_one(x, {} > -100) ? 1 : 0", target),
+        15 => format!("[1].reduce(acc, x, acc + {}, 0)", target),
+        16 => format!("[1].reduce(acc, x, acc, {})", target),
+        _ => format!("[1].map(x, true, {})[0]", target),
     }
 }
 fn edge_val(cons: usize, v: i64) -> i64 {
     match cons {
         1 => v + 1,
         4 => v.abs(),
-        5 => 1,
+        5 | 11 | 12 | 13 | 14 => 1,
+        10 => 5,
         _ => v,
     }
 }
 
 /// node description: 0 = leaf, else 1 + target * NCONS + construct
-fn decode_node(code: u64) -> Option<(usize, usize)> {
+fn decode_node(code: u64, ncons: usize) -> Option<(usize, usize)> {
     if code == 0 {
         None
     } else {
         let c = code - 1;
-        Some(((c / NCONS as u64) as usize, (c % NCONS as u64) as usize))
+        Some(((c / ncons as u64) as usize, (c % ncons as u64) as usize))
     }
 }
 
 pub struct Graphs {
     n: usize,
+    ncons: usize,
+}
+
+/// quick: 3 programs x 9 core constructs and 2 programs x all 18; thorough: 3 x 18 and 4 x 9
+fn graph_sets(t: Tier) -> (Graphs, Graphs) {
+    match t {
+        Tier::Quick => (Graphs { n: 3, ncons: NCONS_CORE }, Graphs { n: 2, ncons: NCONS_ALL }),
+        Tier::Thorough => (Graphs { n: 3, ncons: NCONS_ALL }, Graphs { n: 4, ncons: NCONS_CORE }),
+    }
 }
 impl Graphs {
     fn radix(&self) -> u64 {
-        1 + (self.n * NCONS) as u64
+        1 + (self.n * self.ncons) as u64
     }
     fn size(&self) -> u64 {
         self.radix().pow(self.n as u32)
     }
     fn nodes(&self, idx: u64) -> Vec<Option<(usize, usize)>> {
-        unrank(idx, &vec![self.radix(); self.n]).into_iter().map(decode_node).collect()
+        unrank(idx, &vec![self.radix(); self.n]).into_iter().map(|c| decode_node(c, self.ncons)).collect()
     }
     /// Ok(value) for an acyclic walk from node 0, Err(()) when a cycle is reachable
     fn reference(&self, nodes: &[Option<(usize, usize)>]) -> Result<i64, ()> {
@@ -340,7 +365,8 @@ pub fn worker(args: &[String]) -> i32 {
         for k in start..end {
             match kind.as_str() {
                 "graphs" => {
-                    let g = Graphs { n: p };
+                    // p encodes (nodes, constructs) as nodes * 100 + constructs
+                    let g = Graphs { n: p / 100, ncons: p % 100 };
                     let nodes = g.nodes(k);
                     if g.reference(&nodes).is_ok() {
                         continue;
@@ -503,7 +529,7 @@ fn run_cyclic_graphs(g: &Graphs, rep: &mut Report) {
                 let hs: Vec<_> = (0..nw)
                     .map(|w| {
                         let bin = bin.clone();
-                        s.spawn(move || run_in_children(&bin, "graphs", g.n, w * chunk, ((w + 1) * chunk).min(total), stack))
+                        s.spawn(move || run_in_children(&bin, "graphs", g.n * 100 + g.ncons, w * chunk, ((w + 1) * chunk).min(total), stack))
                     })
                     .collect();
                 hs.into_iter().map(|h| h.join().unwrap()).collect()
@@ -561,7 +587,7 @@ fn run_chains(rep: &mut Report) {
     for (pname, bin) in &profs {
         for (sname, stack) in [("main-8MiB", 0usize), ("thread-2MiB", 2 << 20)] {
             let results: Vec<(usize, Vec<ChildCase>)> = std::thread::scope(|s| {
-                let hs: Vec<_> = (0..NCONS)
+                let hs: Vec<_> = (0..NCONS_ALL)
                     .map(|cons| {
                         let bin = bin.clone();
                         s.spawn(move || (cons, run_in_children(&bin, "chains", cons, 0, 192, stack)))
@@ -713,33 +739,40 @@ impl Jsons {
 }
 
 pub fn replay_families(t: Tier) -> Vec<Family<'static>> {
-    let g: &'static Graphs = Box::leak(Box::new(Graphs { n: t.pick(3, 4) }));
+    let (g, g4) = graph_sets(t);
+    let g: &'static Graphs = Box::leak(Box::new(g));
+    let g4: &'static Graphs = Box::leak(Box::new(g4));
     let j: &'static Jsons = Box::leak(Box::new(Jsons { vals: json_values() }));
     vec![
         Family::new("collisions", 6 * 8, run_collision),
         Family::new("acyclic-graphs", g.size(), move |i, a| g.run(i, a)),
+        Family::new("acyclic-graphs-b", g4.size(), move |i, a| g4.run(i, a)),
         Family::new("json", j.vals.len() as u64, move |i, a| j.run(i, a)),
     ]
 }
 
 pub fn run(t: Tier) -> i32 {
     let mut rep = Report::new(ID, t, "model_checking");
-    let g = Graphs { n: t.pick(3, 4) };
+    let (g, g4) = graph_sets(t);
     let j = Jsons { vals: json_values() };
     rep.rule = format!(
-        "collisions: every subset of {{variable, stored program}} behind identifiers v and int (a type name), of {{bound function, macro}} in call position for g and int (a type constructor), field vs method for m.g and m.g(), and rebinding/re-adding; graphs: ALL {} reference graphs on {} named programs with out-degree <= 1 where every edge goes through one of 9 referencing constructs (bare identifier, arithmetic operand, macro body, macro range, call argument, has, coalesce, f-string, ?: branch): acyclic from p0 -> value by substitution (in-process), a cycle reachable from p0 -> an error, each run in child processes in two build profiles on an 8 MiB main stack and a 2 MiB thread stack: never an abort; chains: length 1..64 through each construct, without a loop and with a 1-element and a 64-element macro loop inside the middle link, same child set-up: correct value up to 16 links (bare, arithmetic) / 4 links (others), value or error beyond, never an abort, 64 iterations give the same outcome class as one; json: {} JSON values of depth <= 2 over 9 atoms bound from JSON vs bound directly (structural equality, ==, inside a list, type). Non-trivial = every case",
-        g.size(),
-        g.n,
+        "collisions: every subset of {{variable, stored program}} behind identifiers v and int (a type name), of {{bound function, macro}} in call position for g and int (a type constructor), field vs method for m.g and m.g(), and rebinding/re-adding; graphs: ALL {} reference graphs on {} named programs (quick: 3 programs x the 9 core constructs plus 2 programs x all 18; thorough: 3 x 18 plus 4 x 9) with out-degree <= 1 where every edge goes through one of 18 referencing constructs (bare identifier, arithmetic operand, call argument, has, coalesce, f-string, ?: branch, and every macro site: map body over a list and over a map, map range, map/3, filter over a list and over a map, all, exists, exists_one, reduce step and seed): acyclic from p0 -> value by substitution (in-process), a cycle reachable from p0 -> an error, each run in child processes in two build profiles on an 8 MiB main stack and a 2 MiB thread stack: never an abort; chains: length 1..64 through each of the 18 constructs, without a loop and with a 1-element and a 64-element macro loop inside the middle link, same child set-up: correct value up to 16 links (bare, arithmetic) / 4 links (others), value or error beyond, never an abort, 64 iterations give the same outcome class as one; json: {} JSON values of depth <= 2 over 9 atoms bound from JSON vs bound directly (structural equality, ==, inside a list, type). Non-trivial = every case",
+        g.size() + g4.size(),
+        format!("{} resp. {}", g.n, g4.n),
         j.vals.len()
     );
     rep.run_family(Family::new("collisions", 6 * 8, run_collision));
     rep.run_family(Family::new("acyclic-graphs", g.size(), |i, a| g.run(i, a)));
     run_cyclic_graphs(&g, &mut rep);
+    let mut total_graphs = g.size();
+    rep.run_family(Family::new("acyclic-graphs-b", g4.size(), |i, a| g4.run(i, a)));
+    run_cyclic_graphs(&g4, &mut rep);
+    total_graphs += g4.size();
     run_chains(&mut rep);
     rep.run_family(Family::new("json", j.vals.len() as u64, |i, a| j.run(i, a)));
     let cyc = rep.acc.counters.get("graphs with a reachable cycle (run in child processes)").cloned().unwrap_or(0);
-    rep.set("states", json!(g.size()));
-    rep.set("transitions", json!(g.size() * g.n as u64));
+    rep.set("states", json!(total_graphs));
+    rep.set("transitions", json!(total_graphs * 3));
     rep.set("traces_validated_against_impl", json!(rep.acc.evaluations));
     rep.set("graphs_with_reachable_cycle", json!(cyc));
     rep.assumptions = vec![
